@@ -1232,13 +1232,16 @@ pub unsafe extern "C" fn SFileVerifyFile(
     if (verify_flags & SFILE_VERIFY_FILE_CRC) != 0 {
         // Load attributes if not already loaded
         // Load attributes if possible
-        match archive_handle {
-            ArchiveHandle::ReadOnly { archive, .. } => {
-                let _ = archive.load_attributes();
-            }
-            ArchiveHandle::Mutable { archive, .. } => {
-                let _ = archive.load_attributes();
-            }
+        // (an archive without an (attributes) file loads fine and simply has nothing to compare;
+        // an (attributes) file that is present but unreadable means the requested check cannot
+        // be made, which must not be reported as "verified")
+        let loaded = match archive_handle {
+            ArchiveHandle::ReadOnly { archive, .. } => archive.load_attributes(),
+            ArchiveHandle::Mutable { archive, .. } => archive.load_attributes(),
+        };
+        if loaded.is_err() {
+            set_last_error(ERROR_FILE_CORRUPT);
+            return false;
         }
 
         if let Some(attrs) = archive_handle
@@ -1272,13 +1275,16 @@ pub unsafe extern "C" fn SFileVerifyFile(
     if (verify_flags & SFILE_VERIFY_FILE_MD5) != 0 {
         // Load attributes if not already loaded
         // Load attributes if possible
-        match archive_handle {
-            ArchiveHandle::ReadOnly { archive, .. } => {
-                let _ = archive.load_attributes();
-            }
-            ArchiveHandle::Mutable { archive, .. } => {
-                let _ = archive.load_attributes();
-            }
+        // (an archive without an (attributes) file loads fine and simply has nothing to compare;
+        // an (attributes) file that is present but unreadable means the requested check cannot
+        // be made, which must not be reported as "verified")
+        let loaded = match archive_handle {
+            ArchiveHandle::ReadOnly { archive, .. } => archive.load_attributes(),
+            ArchiveHandle::Mutable { archive, .. } => archive.load_attributes(),
+        };
+        if loaded.is_err() {
+            set_last_error(ERROR_FILE_CORRUPT);
+            return false;
         }
 
         if let Some(attrs) = archive_handle
